@@ -77,4 +77,25 @@ def depth (j : Json) : Except String Json := do
   pure <| obj [("n", natJ (TP.nRepeat h zoff dz)), ("schedule", listJ ratJ (TP.schedule h zoff dz nb)),
                ("floors", listJ ratJ ((List.range nb).map (TP.floorZ h zoff dz)))]
 
+/-- op `c06.farcall`: `{cfg, col}` → the instructions of the model's call file for that column (comments and blank lines dropped,
+as `ctl.run` does for the real file) -/
+def farcall (j : Json) : Except String Json := do
+  let cfg ← cfgOf (← field j "cfg")
+  let cj ← field j "col"
+  let inits ← jList? (fun e => do match ← jList? jRat? e with | [x, y] => pure (x, y) | _ => .error "init = [x, y]") (← field cj "inits")
+  let u ← match fieldD cj "u" Json.null with
+    | Json.null => pure none
+    | e => do match ← jList? jRat? e with | [a, b] => pure (some (a, b)) | _ => .error "u = [u0, ulast]"
+  let col : Femto.TP.Col := {
+    index := ← jNat? (← field cj "index"), nboxz := ← jNat? (← field cj "nboxz"), nRep := ← jInt? (← field cj "n_repeat"),
+    baseFolder := ← jStr? (← field cj "base_folder"), inits := inits, hBox := ← jRat? (← field cj "h_box"),
+    zOff := ← jRat? (← field cj "z_off"), deltaz := ← jRat? (← field cj "deltaz"),
+    speedClosed := ← jRat? (← field cj "speed_closed"), u := u }
+  let cs0 : Femto.Gc.CS := {}
+  let r := Femto.TP.farcallBody cfg col cs0
+  let f := Femto.TP.farcallFile cfg col
+  pure <| obj [("err", Json.bool r.err.isSome),
+               ("instrs", listJ instrJ ((flattenStmts f.1).filter (fun i => !isNoise i))),
+               ("reported_dwell", ratJ f.2.dwellTotal)]
+
 end Femto.Driver.C06
